@@ -80,6 +80,8 @@ CandFailed(arr, out) ==
                     Bases(out[i].loc) # FootprintOfAll(RA(arr), {arr.protos[m].extent : m \in SeqSet(out[i].members)})
               THEN {"location_covers_exactly_its_members"} ELSE {})
         \cup (IF \E c \in seen : c.kind = "single" /\ Cardinality(c.members) # 1 THEN {"single_has_one_member"} ELSE {})
+        \cup (IF \E i \in DOMAIN out : Len(out[i].members) # Cardinality(SeqSet(out[i].members))
+              THEN {"candidate_lists_each_member_once"} ELSE {})
         \cup (IF an.loose THEN {}
               ELSE (IF OfKind(seen, "chemical_hybrid") # OfKind(an.groups, "chemical_hybrid") THEN {"hybrids_as_documented"} ELSE {})
                    \cup (IF OfKind(seen, "interleaved") # OfKind(an.groups, "interleaved") THEN {"interleaved_as_documented"} ELSE {})
